@@ -196,6 +196,8 @@ def do_link(src, trg):
         # this is only possible on overlay fs's; while annoying, you can have two
         # different filesystems in use in the same directory in those cases.
         return False
+    # renaming one name of an inode over another name of it is a no-op
+    unlink_if_exists(path)
     return True
 
 
